@@ -1,6 +1,7 @@
 package main
 
 import (
+	"bytes"
 	"fmt"
 	"math"
 
@@ -171,6 +172,14 @@ func orderIndependent(a Ans) Ans {
 
 // Ans is an encoded answer; compared word for word.
 type Ans []uint64
+
+func fnvBytes(b []byte) uint64 {
+	h := uint64(1469598103934665603)
+	for _, c := range b {
+		h = (h ^ uint64(c)) * 1099511628211
+	}
+	return h ^ uint64(len(b))<<48
+}
 
 func b2u(b bool) uint64 {
 	if b {
@@ -427,6 +436,13 @@ func execQuery(world []*Obj, op *Op, qs *Queries) Ans {
 			}
 			rp := l.ReferencePoint()
 			a = append(a, b2u(rp.Contained))
+			// encoding a shared loop is a read-only operation too; its bytes include the bound,
+			// which may be looser after Invert, hence behind the mark
+			var eb bytes.Buffer
+			if err := l.Encode(&eb); err != nil {
+				a = append(a, 0xE44)
+			}
+			a = append(a, orderMark, fnvBytes(eb.Bytes()))
 			return a
 		case OPolygon:
 			p := o.Poly
@@ -451,6 +467,11 @@ func execQuery(world []*Obj, op *Op, qs *Queries) Ans {
 				e := p.Edge(i)
 				a = append(a, math.Float64bits(e.V0.X)^math.Float64bits(e.V1.Y))
 			}
+			var eb bytes.Buffer
+			if err := p.Encode(&eb); err != nil {
+				a = append(a, 0xE44)
+			}
+			a = append(a, fnvBytes(eb.Bytes()))
 			return a
 		default:
 			ix := o.Index
